@@ -47,6 +47,8 @@ import Driver.Probe
 import Driver.VocBlocks
 import Driver.Label
 import Driver.ShortIo
+import Driver.AudioDetect
+import Driver.ErrApi
 import Driver.HandleG
 import Driver.StageLoop
 import Driver.RsrcSwap
@@ -142,6 +144,8 @@ def main (args : List String) : IO UInt32 := do
   | "vocblocks" :: rest => VocBlocksDriver.main rest
   | "label" :: rest => LabelDriver.main rest
   | "shortio" :: rest => ShortIoDriver.main rest
+  | "audiodetect" :: rest => AudioDetectDriver.main rest
+  | "errapi" :: rest => ErrApiDriver.main rest
   | "handleg" :: rest => HandleGDriver.cmd rest
   | "stage" :: rest => StageLoopDriver.main rest
   | "second" :: rest => RsrcSwapDriver.main rest
